@@ -10,6 +10,7 @@ import (
 	"strconv"
 	"strings"
 	"sync"
+	"sync/atomic"
 )
 
 type Sort int
@@ -37,8 +38,10 @@ type Term struct {
 	key   string
 	id    int
 
-	hasFree  int
-	freeDone bool
+	// memoised by HasBVar / freeBVars. Obligations of one function share their terms and are rendered concurrently:
+	// the value is computed first and published last (atomically), never the other way round
+	hasFree  int32
+	freeDone int32
 	free     map[*Term]bool
 }
 
@@ -499,26 +502,28 @@ func (c *Ctx) NameTerm(hint string, t *Term) *Term {
 // HasBVar reports whether t mentions a bound variable that is free in t (closed quantified
 // sub-formulas do not count).
 func (t *Term) HasBVar() bool {
-	if t.hasFree == 0 {
-		t.hasFree = 1
-		if len(t.freeBVars()) > 0 {
-			t.hasFree = 2
-		}
+	if v := atomic.LoadInt32(&t.hasFree); v != 0 {
+		return v == 2
 	}
-	return t.hasFree == 2
+	r := int32(1)
+	if len(t.freeBVars()) > 0 {
+		r = 2
+	}
+	atomic.StoreInt32(&t.hasFree, r)
+	return r == 2
 }
 
 // freeBVars returns the bound variables occurring free in t (memoised).
 func (t *Term) freeBVars() map[*Term]bool {
-	if t.freeDone {
+	if atomic.LoadInt32(&t.freeDone) == 1 {
 		return t.free
 	}
-	t.freeDone = true
+	var res map[*Term]bool
 	switch {
 	case t.Op == "bvar":
-		t.free = map[*Term]bool{t: true}
+		res = map[*Term]bool{t: true}
 	case len(t.Args) == 0:
-		t.free = nil
+		res = nil
 	default:
 		var acc map[*Term]bool
 		for _, a := range t.Args {
@@ -539,11 +544,19 @@ func (t *Term) freeBVars() map[*Term]bool {
 			}
 		}
 		if len(acc) > 0 {
-			t.free = acc
+			res = acc
 		}
 	}
+	termMemoMu.Lock()
+	if atomic.LoadInt32(&t.freeDone) == 0 {
+		t.free = res
+		atomic.StoreInt32(&t.freeDone, 1)
+	}
+	termMemoMu.Unlock()
 	return t.free
 }
+
+var termMemoMu sync.Mutex
 
 // HasQuant reports whether the term contains a quantifier.
 func (t *Term) HasQuant() bool {
